@@ -174,6 +174,37 @@ def _coq_calls(name, calls):
     return "Definition %s : list (string * string * list string) :=\n  [%s].\n" % (name, body)
 
 
+GETTERS = ["try_clone", "get_unconditional", "get_if_shared"]
+
+
+def _impl_accessors(src, ty):
+    """[(type, fn, internal BiArc getters called in its body)] for every fn of `impl<..> ty<..>`."""
+    out = []
+    for m in re.finditer(r"\bimpl\s*<[^>]*>\s*%s\s*<[^>]*>\s*\{" % re.escape(ty), src):
+        k = m.end()
+        depth = 1
+        while k < len(src) and depth:
+            if src[k] == "{":
+                depth += 1
+            elif src[k] == "}":
+                depth -= 1
+            k += 1
+        body = src[m.end():k - 1]
+        for fm in re.finditer(r"\b(pub\s+)?fn\s+([A-Za-z_][A-Za-z0-9_]*)[^{]*\{", body):
+            j = fm.end()
+            d2 = 1
+            while j < len(body) and d2:
+                if body[j] == "{":
+                    d2 += 1
+                elif body[j] == "}":
+                    d2 -= 1
+                j += 1
+            fbody = body[fm.end():j - 1]
+            calls = [g for g in re.findall(r"\.\s*(%s)\s*\(" % "|".join(GETTERS), fbody)]
+            out.append((ty, ("pub " if fm.group(1) else "") + fm.group(2), ",".join(calls)))
+    return out
+
+
 @gen.generator
 def gen_conc(repo):
     probs = []
@@ -215,6 +246,12 @@ def gen_conc(repo):
             v = "false"
         out.append("Definition %s : bool := %s.\n" % (cname.lower(), v))
     out.append(_coq_ledger("lender_ops", _ledger(l_src)))
+    # which internal BiArc getter every method of Lender / Loan goes through (the conditional
+    # `get_if_shared` load vs. the unconditional read): rerouting an accessor changes this table
+    acc = _impl_accessors(l_src, "Lender") + _impl_accessors(l_src, "Loan")
+    if not acc:
+        probs.append("gen_conc: no `impl Lender` / `impl Loan` methods found in lender.rs")
+    out.append(_coq_ledger("lender_accessors", acc))
     # ---- repr.rs (mod arc)
     r_src = _prep(repo, "crates/aranya-policy-text/src/repr.rs")
     m = re.search(r"\bmod\s+arc\s*\{", r_src)
